@@ -9,6 +9,7 @@
 //   seq <seed> <n>    sequential API histories (join/detach/joinable/double join/self join): IN/OUT SEQ
 //   jthr <seed> <n>   jthread destruction: stop requested + joined
 //   intr <seed> <n>   interruption: only at interruption points, only while enabled, only the target
+//   rejoin <seed> <n> a joiner interrupted inside join() catches thread_interrupted and joins again
 // Every case is bounded by a watchdog (30 s without progress: MON ... HANG, then the process exits).
 #include "common/ctl.hpp"
 
@@ -51,9 +52,66 @@ static void spin_us(int us)
     while (clk::now() - t0 < std::chrono::microseconds(us)) {}
 }
 
+// ---- rejoin scenario (mode rejoin): hand-shakes carried out inside the hooks
+struct Rejoin
+{
+    std::atomic<bool> on{false};
+    std::atomic<int> variant{0};    // 0 window: the second add lands between front()() and pop_front(); 1: second add before the target exits; 2: free running
+    std::atomic<void const*> U{nullptr};
+    std::atomic<void const*> J{nullptr};
+    std::atomic<bool> tstarted{false}, at1313{false};
+    std::atomic<int> n1301{0}, nadd{0}, nref{0}, n1313{0}, ncall{0}, nwake{0}, nchk0{0}, nran{0};
+    void reset()
+    {
+        on = false; U = nullptr; J = nullptr; tstarted = false; at1313 = false;
+        n1301 = 0; nadd = 0; nref = 0; n1313 = 0; ncall = 0; nwake = 0; nchk0 = 0; nran = 0;
+    }
+};
+static Rejoin g_rj;
+template <typename F>
+static bool wait_bounded(F&& f, int ms)
+{
+    auto t0 = clk::now();
+    while (!f())
+    {
+        if (clk::now() - t0 > std::chrono::milliseconds(ms)) return false;
+        std::this_thread::yield();
+    }
+    return true;
+}
+static void rejoin_hook(int site, void const* obj, std::uint64_t a)
+{
+    void const* U = g_rj.U.load();
+    void const* J = g_rj.J.load();
+    if (U == nullptr) return;
+    if (site == 1301 && obj == U)
+    {
+        int k = ++g_rj.n1301;
+        // window variant: the joiner's SECOND registration waits until the target has invoked the
+        // first callback and stands before pop_front()
+        if (g_rj.variant == 0 && k == 2) wait_bounded([] { return g_rj.at1313.load(); }, 5000);
+    }
+    else if (site == 1316 && obj == U) { if (a) ++g_rj.nadd; else ++g_rj.nref; }
+    else if (site == 1315 && obj == U) g_rj.tstarted = true;
+    else if (site == 1312 && obj == U && g_rj.tstarted) ++g_rj.ncall;
+    else if (site == 1314 && obj == U && g_rj.tstarted) ++g_rj.nran;
+    else if (site == 1313 && obj == U && g_rj.tstarted)
+    {
+        int k = ++g_rj.n1313;
+        if (g_rj.variant == 0 && k == 1)
+        {
+            g_rj.at1313 = true;
+            wait_bounded([] { return g_rj.nadd.load() + g_rj.nref.load() >= 2; }, 5000);
+        }
+    }
+    else if (site == 1303 && J != nullptr && obj == J) ++g_rj.nwake;
+    else if (site == 1306 && J != nullptr && obj == J && a == 0) ++g_rj.nchk0;
+}
+
 static void hookfn(int site, void const* obj, std::uint64_t a, std::uint64_t)
 {
     if (site < 1300 || site >= 1340) return;
+    if (g_rj.on.load(std::memory_order_relaxed)) rejoin_hook(site, obj, a);
     if (g_logging.load(std::memory_order_relaxed))
     {
         std::lock_guard<std::mutex> l(g_evm);
@@ -528,6 +586,82 @@ static void mode_intr(std::uint64_t seed, int n)
     }
 }
 
+// ---------------------------------------------------------------- join again after an interruption
+// A joiner J is interrupted while it waits inside t.join(): thread_interrupted leaves join(), the
+// handle is still joinable, J catches and calls t.join() AGAIN.  The first exit callback (with its own
+// completion flag) is still registered at the target; the second join registers another one.
+// Property: the second join returns once the target has finished (and not before).
+static void mode_rejoin(std::uint64_t seed, int n)
+{
+    vctl::Rng rng(seed * 0x9E3779B97F4A7C15ull + 13);
+    int notret = 0;
+    for (int cs = 0; cs < n && notret < 5; ++cs)    // every non-returning join costs 3 s: stop after 5
+    {
+        beat("REJOIN", cs);
+        int variant = cs < 3 ? cs : (int) rng.below(3);
+        g_rj.reset();
+        g_rj.variant = variant;
+        if (variant == 2) set_delays(rng); else clear_delays();
+        std::atomic<bool> go{false}, finished{false}, returned{false}, giveup{false};
+        std::atomic<int> early{-1}, ncaught{0}, attempts{0}, joinable_after{-1};
+        pika::thread target([&] {
+            while (!go) pika::this_thread::yield();
+            finished = true;
+        });
+        g_rj.U = target.native_handle().get();
+        g_rj.on = true;
+        pika::thread joiner([&] {
+            g_rj.J = pika::threads::detail::get_self_id().get();
+            for (;;)
+            {
+                try
+                {
+                    ++attempts;
+                    target.join();
+                    early = finished.load() ? 0 : 1;
+                    joinable_after = target.joinable() ? 1 : 0;
+                    returned = true;
+                    break;
+                }
+                catch (pika::thread_interrupted const&)
+                {
+                    ++ncaught;
+                    if (giveup) break;
+                }
+            }
+        });
+        // J waits inside join #1 (flag read: not set); the interruption may also arrive just before it suspends
+        bool w1 = wait_bounded([&] { pika::this_thread::yield(); return g_rj.nchk0.load() >= 1; }, 5000);
+        spin_us((int) rng.below(60));
+        bool intr_ok = true;
+        try { joiner.interrupt(); } catch (pika::exception const&) { intr_ok = false; }
+        bool w2 = true;
+        if (variant == 0) w2 = wait_bounded([&] { pika::this_thread::yield(); return ncaught.load() >= 1; }, 5000);
+        else if (variant == 1) w2 = wait_bounded([&] { pika::this_thread::yield(); return g_rj.nadd.load() >= 2; }, 5000);
+        go = true;
+        bool ret = wait_bounded([&] { pika::this_thread::yield(); return returned.load(); }, 3000);
+        int wakes = g_rj.nwake.load(), adds = g_rj.nadd.load(), refs = g_rj.nref.load(), calls = g_rj.ncall.load();
+        if (!ret)
+        {    // unblock the joiner: a second interruption ends it
+            ++notret;
+            giveup = true;
+            try { joiner.interrupt(); } catch (pika::exception const&) {}
+        }
+        joiner.join();
+        wait_bounded([&] { pika::this_thread::yield(); return finished.load(); }, 5000);
+        if (target.joinable()) target.join();
+        wait_bounded([&] { pika::this_thread::yield(); return g_rj.nran.load() >= 1; }, 2000);
+        calls = g_rj.ncall.load();
+        g_rj.on = false;
+        clear_delays();
+        std::printf("MON REJOIN %d var=%d returned=%d early=%d joinable_after=%d caught=%d attempts=%d adds=%d refused=%d calls=%d wakes=%d "
+                    "setup=%d%d%d\n",
+            cs, variant, (int) ret, early.load(), joinable_after.load(), ncaught.load(), attempts.load(), adds, refs, calls, wakes,
+            (int) w1, (int) intr_ok, (int) w2);
+        std::fflush(stdout);
+    }
+}
+
 int main(int argc, char** argv)
 {
     std::string mode = argc > 1 ? argv[1] : "race";
@@ -546,6 +680,7 @@ int main(int argc, char** argv)
         else if (mode == "jthr") mode_jthr(seed, n);
         else if (mode == "intr") mode_intr(seed, n);
         else if (mode == "intry") mode_intry();
+        else if (mode == "rejoin") mode_rejoin(seed, n);
     }));
     pika::finalize();
     int rc = pika::stop();
